@@ -188,14 +188,16 @@ Definition tol_rowpanic (mask : nat) : bool := Nat.odd (Nat.div2 mask).
 Definition result_allowed (mask : nat) (o : op) (w : win) (closecalled : bool) (r : result) : bool :=
   match o with
   | OReset | OClose => result_eqb r ROk
-  | OExec q _ ev =>
+  | OExec q tx ev =>
     match r with
     | ROk => negb (w_ownfail w) && choice_eqb (w_exec w) CExecOk
     | RErrPrep => memb q (w_fails w) && choice_eqb (w_exec w) CNone
     | RErrBad => choice_eqb (w_exec w) CExecBad
     | RErrOther => choice_eqb (w_exec w) CExecErr
     | RErrInvalid => closecalled && choice_eqb (w_exec w) CNone && negb (w_ownfail w)
-    | RErrClosed => (closecalled || tol_closed mask) && choice_eqb (w_exec w) CNone && negb (w_ownfail w)
+    (* the tolerated known finding concerns pool-level use only: inside a transaction
+       Tx.StmtContext re-prepares a closed statement, the model never yields this result there *)
+    | RErrClosed => (closecalled || (tol_closed mask && negb tx)) && choice_eqb (w_exec w) CNone && negb (w_ownfail w)
     | RPanic => tol_rowpanic mask && negb ev && choice_eqb (w_exec w) CNone && (memb q (w_fails w) || closecalled)
     | RNilStmt => false
     end
